@@ -37,7 +37,7 @@ Fixpoint publishes (c : nat) (from : N) (n : nat) : list label :=
     to completion, Run takes an update and the waiting send completes ---- *)
 Example upd_trace_completes :
   exists s, run BestPing false false 1 w_tgt (init_state (fun _ => 0%N) (Some 0))
-              (publishes 0 1 10 ++ [LSetHead 0 11; LTick; LUpdLock; LUpdDone [(true, 1%Z)]; LTake; LPublish 0]) = Some s /\
+              (publishes 0 1 10 ++ [LSetHead 0 11; LTick; LUpdLock; LUpdDone [(true, 1%Z)] []; LTake; LPublish 0]) = Some s /\
     length (updq s) = 10 /\ pend s = [] /\ best s = Some 0 /\ writer s = None /\ rpc s = RWantR (0, 1%N).
 Proof. eexists. split; [vm_compute; reflexivity|]. repeat apply conj; reflexivity. Qed.
 
@@ -56,9 +56,9 @@ Example switch_keeps_sufficient_head :
     run BestPing false false 2 w_tgt (init_state (fun _ => 1%N) (Some 0))
       [LSubWant 0; LSubLock 0; LSubBody 0;
        LSetHead 0 10; LPublish 0; LTake; LRLock [0]; LSend; LRUnlock;      (* 10 from connection 0 *)
-       LTick; LUpdLock; LUpdDone [(true, 5%Z); (false, 1%Z)];                       (* still 0 *)
+       LTick; LUpdLock; LUpdDone [(true, 5%Z); (false, 1%Z)] [];                       (* still 0 *)
        LSetHead 1 9; LPublish 0;
-       LTick; LUpdLock; LUpdDone [(false, 5%Z); (true, 1%Z)];                       (* best := 1 *)
+       LTick; LUpdLock; LUpdDone [(false, 5%Z); (true, 1%Z)] [];                       (* best := 1 *)
        LTake; LRLock [0]; LSend; LRUnlock;                                (* 9 from connection 1 *)
        LRecv 0; LUnsubWant 0; LUnsub 0] = Some s /\
     best s = Some 1 /\ wgot s 0 = Some (0, 10%N) /\ wpc s 0 = WDone ROk.
@@ -86,7 +86,7 @@ Example switch_does_not_wake :
     updq s = [] /\ pend s = [] /\ rpc s = RIdle.
 Proof.
   destruct (run BestPing false false 2 w_tgt (init_state (fun c => if Nat.eqb c 1 then 20%N else 5%N) (Some 0))
-              [LSubWant 0; LSubLock 0; LSubBody 0; LTick; LUpdLock; LUpdDone [(false, 1%Z); (true, 1%Z)]]) as [s|] eqn:Hrun;
+              [LSubWant 0; LSubLock 0; LSubBody 0; LTick; LUpdLock; LUpdDone [(false, 1%Z); (true, 1%Z)] []]) as [s|] eqn:Hrun;
     [|vm_compute in Hrun; discriminate].
   exists s. split; [eapply run_reachable; [apply reach_init|exact Hrun]|].
   vm_compute in Hrun. injection Hrun as <-. sred.
